@@ -1,6 +1,8 @@
 """C02 content preservation: proof (Props/C02.v) + correspondence of parser/writer models + oracle: the significant
 tokens of write(load(T)) equal those of T up to number / escape notation (and position-restricted reordering), block-level
 comments are kept, and an integer literal that does not fit its field is diagnosed."""
+import random
+import docgen
 import framework as fw
 import sx
 from checks import docs, loadlib, loadcheck
@@ -56,7 +58,30 @@ def gen_cases(rng, tier):
         node, text, toks = docs.random_doc(rng, size=rng.choice(['tiny', 'small', 'small', 'medium']),
                                            ifdata=rng.choice([None, 'unknown', 'unknown', 'empty']),
                                            a2ml='simple' if rng.random() < 0.1 else None, dupnames=0.2)
-        cases.append({'text': text, 'strict': True, 'kind': 'doc'})
+        case = {'text': text, 'strict': True, 'kind': 'doc'}
+        # a document whose position-restricted children are out of order: the documented reordering gives the expected order
+        import copy
+        node2 = copy.deepcopy(node)
+        if docs.apply_positions(node2):
+            case['expected_order_text'] = docgen.render(node2, random.Random(1), docgen.Layout(mode='oneline'), docs.spec())[0]
+        cases.append(case)
+    # position-restricted children in every rotation of three and four positions
+    for i in range(12 if tier == 'quick' else 300):
+        perm = list(range(1, rng.choice([3, 4, 4, 5]) + 1))
+        rng.shuffle(perm)
+        tags = ['AXIS_PTS_X', 'FNC_VALUES', 'NO_AXIS_PTS_X', 'AXIS_RESCALE_X', 'NO_RESCALE_X']
+        body = {'AXIS_PTS_X': 'AXIS_PTS_X %d UBYTE INDEX_INCR DIRECT', 'FNC_VALUES': 'FNC_VALUES %d UBYTE ROW_DIR DIRECT',
+                'NO_AXIS_PTS_X': 'NO_AXIS_PTS_X %d UBYTE', 'AXIS_RESCALE_X': 'AXIS_RESCALE_X %d UBYTE 2 INDEX_INCR DIRECT',
+                'NO_RESCALE_X': 'NO_RESCALE_X %d UBYTE'}
+        use = rng.sample(tags, len(perm))
+        head = 'ASAP2_VERSION 1 71 /begin PROJECT p "" /begin MODULE m "" /begin RECORD_LAYOUT rl '
+        tail = ' /end RECORD_LAYOUT /end MODULE /end PROJECT'
+        text = head + ' '.join(body[t] % p for t, p in zip(use, perm)) + tail
+        exp = head + ' '.join(body[t] % p for p, t in sorted(zip(perm, use))) + tail
+        case = {'text': text, 'strict': True, 'kind': 'doc'}
+        if exp != text:
+            case['expected_order_text'] = exp
+        cases.append(case)
     return cases
 
 
@@ -84,7 +109,11 @@ def oracle(c, r, cases, res):
     tout = loadlib.scan_tokens(text1)
     if tin is None or tout is None:
         return 'output cannot be scanned' if tout is None else None
-    if loadlib.reordered_blocks(r.node):
+    if c.get('expected_order_text'):
+        d = loadlib.first_token_difference(loadlib.scan_tokens(c['expected_order_text']), tout)
+        if d is not None:
+            return 'position-restricted children are written neither in file order nor in position order: ' + d[1]
+    elif loadlib.reordered_blocks(r.node):
         # (the text of an A2ML block is kept with LF line ends whatever the file uses, as in the ordered comparison below)
         key = lambda t: (t[0], repr(float(loadlib.number_value(t[1])[1]) + 0.0) if (t[0] == 'number' and loadlib.number_value(t[1])) else (loadlib.unescape_py(t[1][1:-1]) if t[0] == 'string' else (t[1].replace('\r\n', '\n') if t[0] == 'a2ml' else t[1])))
         if sorted(map(key, tin)) != sorted(map(key, tout)):
